@@ -645,6 +645,63 @@ def g4(rng):
     return case
 
 
+def g4n(rng):
+    """general unpartitioned affine Einsums: 1-D / 2-D convolutions with strides and dilations, strided reads of a single
+    variable (`G[2*q]`), an extra plain operand, optional second term over the same variables; loop order = a permutation of the
+    index-variable ranks in which one rank may be replaced by the accessed tensor's own rank (the compiler rejects some: dropped)"""
+    two_d = rng.random() < 0.35
+    a, b = rng.choice([1, 1, 2, 3, 4]), rng.choice([1, 1, 1, 2, 4])
+    tags = ["g4n", "conv", "a%d" % a, "b%d" % b]
+    if two_d:
+        a2, b2 = rng.choice([1, 1, 2]), rng.choice([1, 1, 2])
+        Px, Qx, Rx, Sx = rng.randint(1, 3), rng.randint(1, 4), rng.randint(1, 2), rng.randint(1, 3)
+        ext = {"P": Px, "Q": Qx, "R": Rx, "S": Sx, "H": a2 * (Px - 1) + b2 * (Rx - 1) + 1, "W": a * (Qx - 1) + b * (Sx - 1) + 1}
+        decl = {"I": ["H", "W"], "F": ["R", "S"], "O": ["P", "Q"]}
+        fI = ("t", "I", [[(a2, "p"), (b2, "r")], [(a, "q"), (b, "s")]])
+        fs = [fI, ("t", "F", [V("R"), V("S")])]
+        oidx = [V("P"), V("Q")]
+        varranks = ["P", "Q", "R", "S"]
+        own = {"H": ("P", "R"), "W": ("Q", "S")}
+        tags += ["2d", "a%d" % a2, "b%d" % b2]
+    else:
+        Qx, Sx = rng.randint(1, 6), rng.randint(1, 3)
+        ext = {"Q": Qx, "S": Sx, "W": a * (Qx - 1) + b * (Sx - 1) + 1}
+        decl = {"I": ["W"], "F": ["S"], "O": ["Q"]}
+        fs = [("t", "I", [[(a, "q"), (b, "s")]]), ("t", "F", [V("S")])]
+        oidx = [V("Q")]
+        varranks = ["Q", "S"]
+        own = {"W": ("Q", "S")}
+        if rng.random() < 0.3:
+            c = rng.choice([2, 2, 3])
+            decl["G"] = ["V"]
+            ext["V"] = c * (Qx - 1) + 1
+            fs.append(("t", "G", [[(c, "q")]]))
+            tags += ["strided_read", "a%d" % c]
+        if rng.random() < 0.3:
+            decl["M"] = ["Q"]
+            fs.append(("t", "M", [V("Q")]))
+            tags.append("mask")
+    rng.shuffle(fs)
+    terms = [dict(kind="times", factors=fs, sel=None)]
+    if not two_d and rng.random() < 0.2:
+        decl["J"] = list(decl["I"]); decl["K"] = ["S"]
+        terms.append(dict(kind="times", factors=[("t", "J", [[(a, "q"), (b, "s")]]), ("t", "K", [V("S")])], sel=None))
+        tags.append("two_terms")
+    e = dict(out="O", oidx=oidx, terms=terms)
+    case = dict(decl=decl, eins=[e], mapping={}, ext=ext, env={}, tags=tags)
+    if rng.random() < 0.85:
+        loop = list(varranks)
+        rng.shuffle(loop)
+        if rng.random() < 0.4:
+            w = rng.choice(sorted(own))
+            victim = rng.choice(own[w])
+            loop[loop.index(victim)] = w
+            tags.append("own_rank_loop")
+        case["mapping"]["loop-order"] = {"O": loop}
+        tags.append("loop:" + ",".join(loop))
+    return case
+
+
 def g4b(rng):
     """convolution with two inputs sharing the affine access, shape + occupancy partitioning of the output rank
     (leader: one of the inputs), input rank following"""
